@@ -798,8 +798,15 @@ type lastMsg struct {
 	recv message.Role
 }
 
+// protect-heavy histories: with probability saProtectBias the next operation is a protect by saBiasRole
+var saProtectBias float64
+var saBiasRole message.Role
+
 func (g *Gen) genSaOp(k *saKeys, own []ownMsg, last *lastMsg) *saOp {
 	role := message.Role(g.chance(0.5))
+	if saProtectBias > 0 && g.chance(saProtectBias) {
+		return &saOp{kind: 'P', role: saBiasRole, rnd: g.keyBytesRandom(32), sx: g.smallMsg(), what: "protect"}
+	}
 	if last != nil && g.chance(0.12) {
 		// a forgery of the message that was processed LAST: octets before the checksum altered (header fields,
 		// IV, ciphertext), the checksum itself kept as it was
@@ -854,7 +861,9 @@ func (g *Gen) genSaOp(k *saKeys, own []ownMsg, last *lastMsg) *saOp {
 			op.bs, op.what = base[:g.r.Intn(len(base))], "truncate"
 		case 3:
 			op.what = "garbage"
-			if g.chance(0.5) {
+			if g.chance(0.3) {
+				op.bs = g.displacedSK(k, role)
+			} else if g.chance(0.5) {
 				op.bs = g.bytes(g.r.Intn(120))
 			} else { // header + SK payload with an arbitrary body
 				l := g.r.Intn(90)
@@ -1002,18 +1011,24 @@ func propC17(c *Ctx) {
 	}
 	g := NewGen(c.seed)
 	s := c.suite("sa-histories", "oracle",
-		"random histories (quick: up to 64, thorough: up to 2000 operations) on ONE *security.IKESAKey per history, all 9 suites, over {protect as initiator / responder (injected random octets), unprotect a genuine message of a fresh peer or its own earlier output (both header modes), unprotect tampered / truncated / garbage / cross-key / reflected input, a forgery of the message processed last that keeps its checksum, input with a CORRECT checksum over a malformed encrypted part, derive a Child SA (3 encr x {none, 3 integ})}; after every step the same operation with the same inputs on a FRESH object must give the identical outcome; protected messages must be accepted by a fresh peer, genuine ones accepted, forged ones presenting SK rejected, Child SA keys = stdlib prf+; SK_* fields and object identities unchanged at the end; one evaluation = one step; non-trivial = step >= 1 (the object has a history); distinct by (history, step)")
+		"random histories (quick: up to 64, thorough: up to 2000 operations; plus one history per suite of 160 / 3000 operations three quarters of which are protections by one and the same role) on ONE *security.IKESAKey per history, all 9 suites, over {protect as initiator / responder (injected random octets), unprotect a genuine message of a fresh peer or its own earlier output (both header modes), unprotect tampered / truncated / garbage / cross-key / reflected input, a forgery of the message processed last that keeps its checksum, input with a CORRECT checksum over a malformed encrypted part, derive a Child SA (3 encr x {none, 3 integ})}; after every step the same operation with the same inputs on a FRESH object must give the identical outcome; protected messages must be accepted by a fresh peer, genuine ones accepted, forged ones presenting SK rejected, Child SA keys = stdlib prf+; SK_* fields and object identities unchanged at the end; one evaluation = one step; non-trivial = step >= 1 (the object has a history); distinct by (history, step)")
 	var corr []corrCase
 	lens := []int{64, 64, 64, 64, 64, 64, 48, 33, 17, 9, 4, 2}
 	if c.thorough() {
 		lens = []int{2000, 2000, 2000, 2000, 1000, 1000, 400, 400, 64, 64, 64, 64, 64, 64, 64, 64, 64, 64, 64, 64, 17, 5, 2}
 	}
 	idx := 0
-	for _, st := range allSuites() {
+	for si, st := range allSuites() {
 		for _, n := range lens {
 			idx++
 			c.c17Sequence(s, g, g.saKeys(st), n, idx, &corr)
 		}
+		// one history per suite in which one role protects most of the time (many uses of the same cipher / integrity
+		// object in a row)
+		idx++
+		saProtectBias, saBiasRole = 0.75, message.Role(si%2 == 0)
+		c.c17Sequence(s, g, g.saKeys(st), c.n(160, 3000), idx, &corr)
+		saProtectBias = 0
 	}
 	sc := c.suite("saops-model-vs-impl", "correspondence",
 		"the first <= 64 operations (line <= 28 KB) of every history: outcomes of the Go long-lived object, op by op, = the Lean model's saRun threading one SAKey state (protect / unprotect of Ike.lean, childKeys); non-trivial = >= 2 operations of >= 2 kinds")
